@@ -444,6 +444,18 @@ func AllocRule(w *World, b *Backend, r *Result, rule string, labelsOnly ...bool)
 		r.Bad(rule, "alloc:"+b.Role+":counters", "-", "no construct counter found (opener methods bump no field)")
 		return
 	}
+	// the function stack (pushed by FuncStart): its depth names function frames, which is
+	// the business of the frame rule of C02, not of loop / branch instances
+	funcStack := "-"
+	if mf := b.X.Methods["FuncStart"]; mf != nil {
+		for f, vs := range mf.FieldsSet {
+			for _, v := range vs {
+				if strings.Contains(v, "field:"+f+"[*]") {
+					funcStack = f
+				}
+			}
+		}
+	}
 	var names []string
 	for n := range b.X.Methods {
 		names = append(names, n)
@@ -472,7 +484,7 @@ func AllocRule(w *World, b *Backend, r *Result, rule string, labelsOnly ...bool)
 				}
 			}
 			for _, u := range numUses(em.T) {
-				if strings.Contains(u.expr, "len(field:") {
+				if strings.Contains(u.expr, "len(field:") && !strings.Contains(u.expr, "len(field:"+funcStack+")") {
 					key := fmt.Sprintf("alloc:%s:%s:%s<depth>", b.Role, name, u.name)
 					if !seen[key] {
 						seen[key] = true
